@@ -28,7 +28,12 @@ type effect struct {
 	detail string
 	root   types.Object
 	pos    token.Pos
-	value  string // for flagConst
+	value  string     // for flagConst
+	elems  []ast.Expr // for collect: the appended expressions
+	key    types.Object
+	// for collectThenSort: "" when the comparator is a total order on the collected elements
+	// themselves, otherwise the fields it compares (antisymmetry must then be reviewed)
+	sortKey string
 }
 
 type effects []effect
@@ -40,6 +45,17 @@ func (es effects) tags() []string {
 		if !seen[e.tag] {
 			seen[e.tag] = true
 			out = append(out, e.tag)
+		}
+	}
+	sort.Strings(out)
+	return out
+}
+
+func (es effects) sortKeys() []string {
+	out := []string{}
+	for _, e := range es {
+		if e.sortKey != "" {
+			out = append(out, e.sortKey)
 		}
 	}
 	sort.Strings(out)
@@ -175,16 +191,18 @@ func (c *classifier) resolve(ctx *loopCtx) effects {
 	for _, e := range ctx.eff {
 		switch e.tag {
 		case "collect":
-			tag, detail := c.usesAfter(e.target, e.root, ctx.loop, ctx.loop.End(), "sort")
-			out = append(out, effect{tag: tag, target: e.target, detail: detail})
+			tag, detail, sk := c.usesAfter(e.target, e.root, ctx.loop, ctx.loop.End(), "sort", &e)
+			out = append(out, effect{tag: tag, target: e.target, detail: detail, sortKey: sk})
 		case "orderedInsert":
-			tag, detail := c.usesAfter(e.target, e.root, ctx.loop, ctx.loop.End(), "Sort")
-			if tag == "collectThenSort" {
+			tag, detail, sk := c.usesAfter(e.target, e.root, ctx.loop, ctx.loop.End(), "Sort", nil)
+			switch tag {
+			case "collectThenSort":
 				tag = "orderedInsertThenSort"
-			} else {
+			case "collectThenSortByDerivedKey":
+			default:
 				tag = "orderedInsert"
 			}
-			out = append(out, effect{tag: tag, target: e.target, detail: detail})
+			out = append(out, effect{tag: tag, target: e.target, detail: detail, sortKey: sk})
 		case "flagConst":
 			if len(flags[e.target]) == 1 {
 				out = append(out, effect{tag: "anyFlag", target: e.target, detail: "= " + e.value})
@@ -483,6 +501,17 @@ func (c *classifier) mentionsLoopVars(ctx *loopCtx, e ast.Expr) bool {
 	return found
 }
 
+func (c *classifier) mentionsObj(e ast.Expr, o types.Object) bool {
+	found := false
+	ast.Inspect(e, func(nd ast.Node) bool {
+		if id, ok := nd.(*ast.Ident); ok && c.info().Uses[id] == o {
+			found = true
+		}
+		return !found
+	})
+	return found
+}
+
 func mentionsExpr(e ast.Expr, text string) bool {
 	found := false
 	ast.Inspect(e, func(nd ast.Node) bool {
@@ -580,8 +609,10 @@ func (c *classifier) assignTo(ctx *loopCtx, lhs ast.Expr, rhs ast.Expr, tok toke
 			case tok != token.ASSIGN && tok != token.DEFINE:
 				c.add(ctx, effect{tag: "unknown", target: dst, detail: "op-assign into an indexed destination", pos: pos})
 			case c.isKey(ctx, ix.Index) && !ctx.ordered:
-				if rhs != nil && dst != ctx.ranged && mentionsExpr(rhs, dst) {
-					c.add(ctx, effect{tag: "chainedUpdate", target: dst, detail: "right-hand side reads the destination", pos: pos})
+				if rhs != nil && ((dst != ctx.ranged && mentionsExpr(rhs, dst)) || c.mentionsObj(rhs, root)) {
+					// dst[k] = f(dst …) / owner.m[k] = owner.method(v): the value written may depend
+					// on entries written earlier in the same loop
+					c.add(ctx, effect{tag: "chainedUpdate", target: dst, detail: "right-hand side reads the destination or its owner", pos: pos})
 				} else {
 					c.add(ctx, effect{tag: "keyedWrite", target: dst, pos: pos})
 				}
@@ -605,7 +636,7 @@ func (c *classifier) assignTo(ctx *loopCtx, lhs ast.Expr, rhs ast.Expr, tok toke
 	if call, ok := r.(*ast.CallExpr); ok {
 		if obj, _ := c.calleeObj(call); obj != nil {
 			if b, ok := obj.(*types.Builtin); ok && b.Name() == "append" && len(call.Args) > 0 && types.ExprString(call.Args[0]) == target {
-				c.add(ctx, effect{tag: "collect", target: target, root: root, pos: pos})
+				c.add(ctx, effect{tag: "collect", target: target, root: root, pos: pos, elems: call.Args[1:], key: ctx.key})
 				return
 			}
 		}
@@ -834,6 +865,299 @@ func (c *classifier) isSortCall(call *ast.CallExpr, arg ast.Expr, method string)
 	return false
 }
 
+// sortOrder looks at HOW the collected slice `arg` is sorted.  S_collect_then_sort needs the
+// order to be antisymmetric on the collected elements, so only a comparator that orders the
+// elements themselves is accepted outright:
+//
+//	"direct"          sort.Strings/Ints/Float64s, slices.Sort, orderedmap.SortStrings, or a
+//	                  comparator whose lexicographic cascade contains the element itself, or
+//	                  covers every field of the element's struct type, or compares a field
+//	                  that the loop initialised with the range key
+//	"field:<paths>"   compares only these fields of the elements (injectivity to be reviewed)
+//	"derived:<why>"   compares something else (a lookup through the element, len(), a call …)
+func (c *classifier) sortOrder(call *ast.CallExpr, arg ast.Expr, src *effect) string {
+	obj, _ := c.calleeObj(call)
+	f, _ := obj.(*types.Func)
+	if f == nil || f.Pkg() == nil {
+		return "derived:unknown sort function"
+	}
+	pkg, name := f.Pkg().Path(), f.Name()
+	if (pkg == "sort" && (name == "Strings" || name == "Ints" || name == "Float64s")) || (pkg == "slices" && name == "Sort") {
+		return "direct"
+	}
+	var cmp ast.Expr
+	switch {
+	case inModule(f) && name == "Sort":
+		if len(call.Args) != 1 {
+			return "derived:unexpected Sort signature"
+		}
+		cmp = unparen(call.Args[0])
+		if o, _ := c.calleeObjOfExpr(cmp).(*types.Func); o != nil && inModule(o) && o.Name() == "SortStrings" {
+			return "direct"
+		}
+	case len(call.Args) == 2:
+		cmp = unparen(call.Args[1])
+	default:
+		return "derived:unexpected sort signature"
+	}
+	lit, ok := cmp.(*ast.FuncLit)
+	if !ok || len(lit.Type.Params.List) == 0 {
+		return "derived:comparator " + types.ExprString(cmp) + " is not a function literal"
+	}
+	var params []*ast.Ident
+	for _, fl := range lit.Type.Params.List {
+		params = append(params, fl.Names...)
+	}
+	if len(params) != 2 {
+		return "derived:comparator does not take two parameters"
+	}
+	pi, pj := c.info().Defs[params[0]], c.info().Defs[params[1]]
+	byIndex := pkg == "sort" // sort.Slice(xs, func(i, j int) bool): elements are xs[i], xs[j]
+	argText := types.ExprString(arg)
+	// elemOf: 1 if e denotes the first compared element, 2 for the second, 0 otherwise
+	elemOf := func(e ast.Expr) int {
+		e = unparen(e)
+		var id *ast.Ident
+		if byIndex {
+			ix, ok := e.(*ast.IndexExpr)
+			if !ok || types.ExprString(ix.X) != argText {
+				return 0
+			}
+			id, _ = unparen(ix.Index).(*ast.Ident)
+		} else {
+			id, _ = e.(*ast.Ident)
+		}
+		if id == nil {
+			return 0
+		}
+		switch c.info().Uses[id] {
+		case pi:
+			return 1
+		case pj:
+			return 2
+		}
+		return 0
+	}
+	var norm func(e ast.Expr, which int) (string, bool)
+	norm = func(e ast.Expr, which int) (string, bool) {
+		e = unparen(e)
+		if k := elemOf(e); k != 0 {
+			return "$", k == which
+		}
+		switch v := e.(type) {
+		case *ast.Ident:
+			if o := c.info().Uses[v]; o == pi || o == pj {
+				return "?", false // a bare index outside xs[·]
+			}
+			return v.Name, true
+		case *ast.BasicLit:
+			return v.Value, true
+		case *ast.SelectorExpr:
+			x, ok := norm(v.X, which)
+			return x + "." + v.Sel.Name, ok
+		case *ast.IndexExpr:
+			x, ok1 := norm(v.X, which)
+			i, ok2 := norm(v.Index, which)
+			return x + "[" + i + "]", ok1 && ok2
+		case *ast.StarExpr:
+			x, ok := norm(v.X, which)
+			return "*" + x, ok
+		case *ast.UnaryExpr:
+			x, ok := norm(v.X, which)
+			return v.Op.String() + x, ok
+		case *ast.BinaryExpr:
+			x, ok1 := norm(v.X, which)
+			y, ok2 := norm(v.Y, which)
+			return "(" + x + v.Op.String() + y + ")", ok1 && ok2
+		case *ast.CallExpr:
+			parts := []string{}
+			okAll := true
+			for _, a := range v.Args {
+				t, ok := norm(a, which)
+				parts = append(parts, t)
+				okAll = okAll && ok
+			}
+			fn, ok := norm(v.Fun, which)
+			return fn + "(" + strings.Join(parts, ",") + ")", okAll && ok
+		}
+		return "?", false
+	}
+	// pair: the two sides are the same expression of the first and of the second element
+	pair := func(a, b ast.Expr) (string, bool) {
+		for _, w := range [][2]int{{1, 2}, {2, 1}} {
+			x, ok1 := norm(a, w[0])
+			y, ok2 := norm(b, w[1])
+			if ok1 && ok2 && x == y && strings.Contains(x, "$") {
+				return x, true
+			}
+		}
+		return "", false
+	}
+	isCompareCall := func(e ast.Expr) (ast.Expr, ast.Expr, bool) {
+		call, ok := unparen(e).(*ast.CallExpr)
+		if !ok || len(call.Args) != 2 {
+			return nil, nil, false
+		}
+		o, _ := c.calleeObj(call)
+		if fn, _ := o.(*types.Func); fn != nil && fn.Pkg() != nil && fn.Name() == "Compare" && (fn.Pkg().Path() == "strings" || fn.Pkg().Path() == "cmp") {
+			return call.Args[0], call.Args[1], true
+		}
+		return nil, nil, false
+	}
+	keyOfCompare := func(e ast.Expr) (string, bool) {
+		if a, b, ok := isCompareCall(e); ok {
+			return pair(a, b)
+		}
+		be, ok := unparen(e).(*ast.BinaryExpr)
+		if !ok {
+			return "", false
+		}
+		switch be.Op {
+		case token.LSS, token.GTR, token.LEQ, token.GEQ, token.NEQ:
+			return pair(be.X, be.Y)
+		}
+		return "", false
+	}
+	keys := []string{}
+	stmts := lit.Body.List
+	if len(stmts) == 0 {
+		return "derived:empty comparator"
+	}
+	for i, st := range stmts {
+		last := i == len(stmts)-1
+		switch v := st.(type) {
+		case *ast.ReturnStmt:
+			if !last || len(v.Results) != 1 {
+				return "derived:comparator shape not recognised"
+			}
+			k, ok := keyOfCompare(v.Results[0])
+			if !ok {
+				return "derived:" + types.ExprString(v.Results[0])
+			}
+			keys = append(keys, k)
+		case *ast.IfStmt:
+			// if A_i != A_j { return A_i < A_j }     /    if c := cmp.Compare(A_i, A_j); c != 0 { return c }
+			if last || v.Else != nil || len(v.Body.List) != 1 {
+				return "derived:comparator shape not recognised"
+			}
+			if _, isRet := v.Body.List[0].(*ast.ReturnStmt); !isRet {
+				return "derived:comparator shape not recognised"
+			}
+			var k string
+			var ok bool
+			if as, isAssign := v.Init.(*ast.AssignStmt); isAssign && len(as.Rhs) == 1 {
+				k, ok = keyOfCompare(as.Rhs[0])
+			} else if v.Init == nil {
+				k, ok = keyOfCompare(v.Cond)
+			}
+			if !ok {
+				return "derived:" + types.ExprString(v.Cond)
+			}
+			keys = append(keys, k)
+		default:
+			return "derived:comparator shape not recognised"
+		}
+	}
+	fields := []string{}
+	for _, k := range keys {
+		if k == "$" {
+			return "direct" // ties are broken by the element itself
+		}
+	}
+	for _, k := range keys {
+		switch {
+		case strings.HasPrefix(k, "$.") && !strings.ContainsAny(k[2:], "[]()*?"):
+			fields = append(fields, k[1:])
+		default:
+			return "derived:" + strings.ReplaceAll(k, "$", "elem")
+		}
+	}
+	// every field of the element's struct type takes part
+	if st := c.elemStruct(arg); st != nil {
+		covered := map[string]bool{}
+		for _, f := range fields {
+			if !strings.Contains(f[1:], ".") {
+				covered[f[1:]] = true
+			}
+		}
+		all := st.NumFields() > 0
+		for i := 0; i < st.NumFields(); i++ {
+			if _, basic := st.Field(i).Type().Underlying().(*types.Basic); !basic || !covered[st.Field(i).Name()] {
+				all = false
+			}
+		}
+		if all {
+			return "direct"
+		}
+	}
+	// a compared field that the loop filled with the range key
+	if src != nil && src.key != nil {
+		for _, f := range fields {
+			if strings.Contains(f[1:], ".") {
+				continue
+			}
+			okAll := len(src.elems) > 0
+			for _, el := range src.elems {
+				if !c.fieldIsKey(el, f[1:], src.key) {
+					okAll = false
+				}
+			}
+			if okAll {
+				return "direct"
+			}
+		}
+	}
+	sort.Strings(fields)
+	return "field:" + strings.Join(fields, ",")
+}
+
+func (c *classifier) calleeObjOfExpr(e ast.Expr) types.Object {
+	switch v := unparen(e).(type) {
+	case *ast.Ident:
+		return c.info().Uses[v]
+	case *ast.SelectorExpr:
+		return c.info().Uses[v.Sel]
+	}
+	return nil
+}
+
+func (c *classifier) elemStruct(slice ast.Expr) *types.Struct {
+	t := c.info().TypeOf(slice)
+	if t == nil {
+		return nil
+	}
+	sl, ok := t.Underlying().(*types.Slice)
+	if !ok {
+		return nil
+	}
+	st, _ := sl.Elem().Underlying().(*types.Struct)
+	return st
+}
+
+// fieldIsKey: el is `T{…, field: <range key>, …}` (or &T{…})
+func (c *classifier) fieldIsKey(el ast.Expr, field string, key types.Object) bool {
+	el = unparen(el)
+	if u, ok := el.(*ast.UnaryExpr); ok && u.Op == token.AND {
+		el = unparen(u.X)
+	}
+	lit, ok := el.(*ast.CompositeLit)
+	if !ok {
+		return false
+	}
+	for _, e := range lit.Elts {
+		kv, ok := e.(*ast.KeyValueExpr)
+		if !ok {
+			continue
+		}
+		if k, ok := kv.Key.(*ast.Ident); ok && k.Name == field {
+			if v, ok := unparen(kv.Value).(*ast.Ident); ok && c.info().Uses[v] == key {
+				return true
+			}
+		}
+	}
+	return false
+}
+
 func (c *classifier) isFilesType(t types.Type) bool {
 	s := types.TypeString(t, nil)
 	return s == "github.com/grafana/codejen.Files" || s == "[]github.com/grafana/codejen.File"
@@ -841,10 +1165,10 @@ func (c *classifier) isFilesType(t types.Type) bool {
 
 // usesAfter decides what becomes of `target` (a variable holding map contents in iteration
 // order) after position `from`.
-func (c *classifier) usesAfter(target string, root types.Object, at ast.Node, from token.Pos, method string) (string, string) {
+func (c *classifier) usesAfter(target string, root types.Object, at ast.Node, from token.Pos, method string, src *effect) (string, string, string) {
 	body := c.enclosingFuncBody(at)
 	if body == nil {
-		return "unknown", "no enclosing function body"
+		return "unknown", "no enclosing function body", ""
 	}
 	// collected across an enclosing loop: earlier statements run again afterwards
 	for cur := c.parents[at]; cur != nil && cur != body; cur = c.parents[cur] {
@@ -852,9 +1176,9 @@ func (c *classifier) usesAfter(target string, root types.Object, at ast.Node, fr
 		case *ast.ForStmt, *ast.RangeStmt:
 			if root != nil && !(root.Pos() >= l.Pos() && root.Pos() < l.End()) {
 				if t := c.typeOfTarget(body, target); t != nil && c.isFilesType(t) {
-					return "emitFiles", "files collected across an enclosing loop"
+					return "emitFiles", "files collected across an enclosing loop", ""
 				}
-				return "appendUnsorted", "collected across an enclosing loop"
+				return "appendUnsorted", "collected across an enclosing loop", ""
 			}
 		case *ast.FuncLit:
 			// the enclosing body is this literal's (enclosingFuncBody stops here)
@@ -880,21 +1204,34 @@ func (c *classifier) usesAfter(target string, root types.Object, at ast.Node, fr
 	})
 	sort.Slice(uses, func(i, j int) bool { return uses[i].Pos() < uses[j].Pos() })
 	if t := c.typeOfTarget(body, target); t != nil && c.isFilesType(t) {
-		return "emitFiles", "appended to a codejen file list"
+		return "emitFiles", "appended to a codejen file list", ""
 	}
 	if len(uses) == 0 {
 		if root != nil && root.Pos() >= body.Pos() && root.Pos() < body.End() && !strings.Contains(target, ".") {
-			return "collectThenFold", "never used afterwards"
+			return "collectThenFold", "never used afterwards", ""
 		}
-		return "appendUnsorted", "escapes through " + target
+		return "appendUnsorted", "escapes through " + target, ""
 	}
 	// first use: a sort?
+	var sortCall *ast.CallExpr
 	if call, ok := c.parents[uses[0]].(*ast.CallExpr); ok && c.isSortCall(call, uses[0], method) {
-		return "collectThenSort", "first later use is " + types.ExprString(call.Fun)
+		sortCall = call
 	}
 	if sel, ok := c.parents[uses[0]].(*ast.SelectorExpr); ok && sel.X == uses[0] {
 		if call, ok := c.parents[sel].(*ast.CallExpr); ok && c.isSortCall(call, uses[0], method) {
-			return "collectThenSort", "first later use is " + types.ExprString(call.Fun)
+			sortCall = call
+		}
+	}
+	if sortCall != nil {
+		how := "first later use is " + types.ExprString(sortCall.Fun)
+		order := c.sortOrder(sortCall, uses[0], src)
+		switch {
+		case order == "direct":
+			return "collectThenSort", how + ", a total order on the collected elements", ""
+		case strings.HasPrefix(order, "field:"):
+			return "collectThenSort", how + ", comparing only " + strings.TrimPrefix(order, "field:"), target + " by " + strings.TrimPrefix(order, "field:")
+		default:
+			return "collectThenSortByDerivedKey", how + ", but the comparator is not an order on the collected elements: " + strings.TrimPrefix(order, "derived:"), ""
 		}
 	}
 	returned, folded := false, []string{}
@@ -906,38 +1243,38 @@ func (c *classifier) usesAfter(target string, root types.Object, at ast.Node, fr
 					continue
 				}
 			}
-			return "appendUnsorted", "passed to " + types.ExprString(par.Fun)
+			return "appendUnsorted", "passed to " + types.ExprString(par.Fun), ""
 		case *ast.RangeStmt:
 			if par.X != u {
-				return "appendUnsorted", "used in a range clause"
+				return "appendUnsorted", "used in a range clause", ""
 			}
 			sub := c.newCtx(par, true)
 			if sub == nil {
-				return "appendUnsorted", "consumer loop assigns to existing variables"
+				return "appendUnsorted", "consumer loop assigns to existing variables", ""
 			}
 			c.scanCalls(sub, par.Body)
 			c.block(sub, par.Body.List, false, false)
 			eff := c.resolve(sub)
 			for _, e := range eff {
-				if !admissibleTag[e.tag] {
-					return "appendUnsorted", fmt.Sprintf("consumer loop at line %d has effect %s", c.x.fset.Position(par.Pos()).Line, e.tag)
+				if !admissibleTag[e.tag] || e.sortKey != "" {
+					return "appendUnsorted", fmt.Sprintf("consumer loop at line %d has effect %s", c.x.fset.Position(par.Pos()).Line, e.tag), ""
 				}
 			}
 			folded = append(folded, fmt.Sprintf("line %d: %s", c.x.fset.Position(par.Pos()).Line, strings.Join(eff.tags(), "+")))
 		case *ast.ReturnStmt:
 			returned = true
 		default:
-			return "appendUnsorted", fmt.Sprintf("used in %T at line %d", par, c.x.fset.Position(u.Pos()).Line)
+			return "appendUnsorted", fmt.Sprintf("used in %T at line %d", par, c.x.fset.Position(u.Pos()).Line), ""
 		}
 	}
 	if returned {
 		if c.inFuncLit(at) {
 			// the caller of a closure is not known statically
-			return "appendUnsorted", "returned from a closure in iteration order"
+			return "appendUnsorted", "returned from a closure in iteration order", ""
 		}
-		return "collectReturn", "returned to the caller in iteration order"
+		return "collectReturn", "returned to the caller in iteration order", ""
 	}
-	return "collectThenFold", "consumed only by order-insensitive loops: " + strings.Join(folded, "; ")
+	return "collectThenFold", "consumed only by order-insensitive loops: " + strings.Join(folded, "; "), ""
 }
 
 func (c *classifier) typeOfTarget(body *ast.BlockStmt, target string) types.Type {
@@ -978,8 +1315,8 @@ func (c *classifier) classifyLeakCall(call *ast.CallExpr) effects {
 				if root == nil {
 					root = c.info().Uses[id]
 				}
-				tag, detail := c.usesAfter(id.Name, root, s, s.End(), "sort")
-				return effects{{tag: tag, target: id.Name, detail: detail}}
+				tag, detail, sk := c.usesAfter(id.Name, root, s, s.End(), "sort", nil)
+				return effects{{tag: tag, target: id.Name, detail: detail, sortKey: sk}}
 			}
 		}
 	case *ast.ReturnStmt:
